@@ -238,3 +238,18 @@ pub unsafe fn mm_stream_ps(p: *mut f32, a: __m128) {
 }
 
 pub unsafe fn mm_sfence() {}
+
+// --- data-flow abstraction for memory-only harnesses (C06) -------------------------
+// The addresses touched by `stripe_avx2` depend only on the sequence length, never on
+// the symbols. In the harnesses that check *memory accesses only* the five levels of
+// the 32x32 byte transpose network are replaced by the identity on their first
+// operand, which removes ~1000 symbolic bytes from the encoding. These models are
+// NOT faithful and are never used in a harness that asserts anything about data.
+
+pub unsafe fn abstract_unpack(a: __m256i, _b: __m256i) -> __m256i {
+    a
+}
+
+pub unsafe fn abstract_permute2x128<const IMM8: i32>(a: __m256i, _b: __m256i) -> __m256i {
+    a
+}
